@@ -103,12 +103,18 @@ func handleConnect(c *Client, e Event) {
 // nickCollisionHandler helps prevent the client from having conflicting
 // nicknames with another bot, user, etc.
 func nickCollisionHandler(c *Client, e Event) {
+	// The nickname that was rejected: "<client> <nick> :<reason>".
+	rejected := c.GetNick()
+	if len(e.Params) >= 2 && IsValidNick(e.Params[1]) {
+		rejected = e.Params[1]
+	}
+
 	if c.Config.HandleNickCollide == nil {
-		c.Cmd.Nick(c.GetNick() + "_")
+		c.Cmd.Nick(rejected + "_")
 		return
 	}
 
-	newNick := c.Config.HandleNickCollide(c.GetNick())
+	newNick := c.Config.HandleNickCollide(rejected)
 	if newNick != "" {
 		c.Cmd.Nick(newNick)
 	}
